@@ -15,14 +15,6 @@ func (r *Router) parseParamRoute(route *Route) (first string) {
 	// collect route Params
 	ss := varRegex.FindAllString(path, -1)
 
-	// no vars, but contains optional char
-	if len(ss) == 0 {
-		regexStr := checkAndParseOptional(quotePointChar(path))
-		route.regex = regexp.MustCompile("^" + regexStr + "$")
-		route.goodRegexGroups()
-		return
-	}
-
 	var n, v string
 	var rawVar, varRegex []string
 	for _, str := range ss {
@@ -55,8 +47,8 @@ func (r *Router) parseParamRoute(route *Route) (first string) {
 	optPos := strings.IndexByte(path, '[')
 	minPos := argPos
 
-	// has optional char. /blog[/{id}]
-	if optPos > 0 && argPos > optPos {
+	// has optional char. /blog[/{id}] or no vars, only optional char. /about[.html]
+	if optPos > 0 && (argPos < 0 || argPos > optPos) {
 		minPos = optPos
 	}
 
